@@ -91,6 +91,14 @@ func NewServer(be Backend) *Server {
 // Serve accepts incoming connections on the Listener l.
 func (s *Server) Serve(l net.Listener) error {
 	s.locker.Lock()
+	select {
+	case <-s.done:
+		// Close or Shutdown has run already and did not see this listener.
+		s.locker.Unlock()
+		l.Close()
+		return ErrServerClosed
+	default:
+	}
 	s.listeners = append(s.listeners, l)
 	s.locker.Unlock()
 
